@@ -141,6 +141,24 @@ def producer_cap(ctx, F):
             K = lhs.id
             incs = [n for n in cfg.nodes_in(loop) if n.kind == 'stmt' and isinstance(n.ast, ast.AugAssign)
                     and isinstance(n.ast.target, ast.Name) and n.ast.target.id == K]
+            if not incs and isinstance(loop, ast.For) and isinstance(loop.iter, ast.Call) and isinstance(loop.iter.func, ast.Name) \
+                    and loop.iter.func.id == 'enumerate' and isinstance(loop.target, ast.Tuple) and isinstance(loop.target.elts[0], ast.Name) \
+                    and loop.target.elts[0].id == K:
+                # the counter is the position in the scan: `for n, (c, nxt) in enumerate(zip(XS, XS[1:]), 1)` - n candidates of XS have
+                # been looked at, the accept statement records n, and the batch is XS[:n]
+                start_ok = (len(loop.iter.args) == 2 and isinstance(loop.iter.args[1], ast.Constant) and loop.iter.args[1].value == 1) or \
+                    any(k.arg == 'start' and isinstance(k.value, ast.Constant) and k.value.value == 1 for k in loop.iter.keywords)
+                src = loop.iter.args[0] if loop.iter.args else None
+                if isinstance(src, ast.Call) and isinstance(src.func, ast.Name) and src.func.id == 'zip' and src.args:
+                    src = src.args[0]
+                acc_names = {a_.ast.targets[0].id for a_ in accept if isinstance(a_.ast.value, ast.Name) and a_.ast.value.id == K}
+                slices = [x for x in F.own_nodes() if isinstance(x, ast.Subscript) and isinstance(x.slice, ast.Slice) and isinstance(x.ctx, ast.Load)
+                          and isinstance(x.slice.upper, ast.Name) and x.slice.upper.id in acc_names and x.slice.lower is None]
+                if start_ok and isinstance(src, ast.Name) and len(acc_names) == len(accept) and slices \
+                        and all(isinstance(x.value, ast.Name) and x.value.id == src.id for x in slices):
+                    return True, 'cap `%s > len(C.hopeful()) - E.seatsLeftToFill()` -> break (line %d) precedes every accept statement; %s counts the ' \
+                                 'candidates of %s scanned so far and the batch is %s[:%s]' % (K, capif.lineno, K, src.id, src.id, '/'.join(sorted(acc_names)))
+                return None, 'cannot relate the scan position `%s` to the accepted batch in %s()' % (K, F.name)
             ok_inc = bool(incs) and all(isinstance(i.ast.op, ast.Add) and _is_len_of(i.ast.value, lambda x: True)
                                         for i in incs)
             # the increment precedes the cap on every path of an iteration
